@@ -632,6 +632,9 @@ Proof.
   - intros c p. rewrite PR, CR, (Bi c p). split; intros [H|[-> ->]]; auto.
 Qed.
 
+Corollary add_parent_keeps_binv o parent child o' : binv (o_arena o) -> b_add_parent parent child o = Ok o' -> binv (o_arena o').
+Proof. intros B H. exact (proj1 (binv_add_parent o parent child o' B H)). Qed.
+
 (* ------------------------------------------------------------------------------------------ *)
 (* the ancestor sets are a function of the parent RELATION (not of ids' insertion order)        *)
 (* ------------------------------------------------------------------------------------------ *)
